@@ -6,7 +6,7 @@ import PnVerif.Model.NumRecs
       S <hist> <opindex> nr=<numrecs rank0>,<numrecs rank1>,… hdr=<header field> hi=<ghost> own=<ghost per rank>
       S <hist> <opindex> DEAD                 (the model says the ranks block forever; rest of the history is skipped)
 
-  `HIST … fx=zvw` (three 0/1 digits) selects the model variant: zeroPath, vardGuard, waitScan repairs present.
+  `HIST … fx=zvwf` (four 0/1 digits) selects the model variant: zeroPath, vardGuard, waitScan, fillMode repairs present.
 -/
 open PnVerif.NumRecs
 
@@ -80,7 +80,8 @@ partial def loop (h : IO.FS.Stream) (out : IO.FS.Stream) (st : St) : IO Unit := 
   match ws with
   | "HIST" :: id :: _ =>
     let fs := ((ws.findSome? fun w => if w.startsWith "fx=" then some ((w.drop 3).toString) else none).getD "000").toList
-    let fx : Fix := { zeroPath := fs[0]? == some '1', vardGuard := fs[1]? == some '1', waitScan := fs[2]? == some '1' }
+    let fx : Fix := { zeroPath := fs[0]? == some '1', vardGuard := fs[1]? == some '1',
+                      waitScan := fs[2]? == some '1', fillMode := fs[3]? == some '1' }
     loop h out { hist := id, fx := fx, k := 0, w := some (initWorld (kvNat ws "n" 2) (kvNat ws "nr0" 0)) }
   | "END" :: _ => loop h out { st with w := none }
   | [] => loop h out st
